@@ -147,7 +147,9 @@ CLAIMS["C17"] = dict(
          "reaches exactly the stages attached at that moment of a probe whose handlers are installed. Histories with "
          "reducing and non-reducing stages (accum, count, sum, min, max, last) built before, during and after the active "
          "period are run on the implementation: every stage's output is compared with the reduction of exactly the events "
-         "delivered during the active period, and with the model's delivery/completion record.",
+         "delivered during the active period, and with the model's delivery/completion record. The exit hook "
+         "(_terminate_global_probes) with one to four global probes left active — called in-process and through a real "
+         "interpreter exit of a child process — : every reduction publishes its one result.",
     design_ref="DESIGN.md section 5, C17",
     note="giving.SourceProxy and the reactivex operators are external: modelled (observer list, complete-then-clear-"
          "then-_exit) and validated by correspondence, not verified. sum/min/max/last of an empty stream (reactivex error) "
@@ -273,7 +275,9 @@ CLAIMS["C02"] = dict(
          "against the binding log of an independently rendered twin of the same program, for every choice of focus and "
          "context variables — also through a caller that calls the function twice (outer_w > f(ctx) > x: each call is "
          "a call of its own) — and, first, on directed programs that bind the focus once at every position Python binds "
-         "a name (else clauses of loops, handlers, finally, with, walrus inside an augmented assignment, …).",
+         "a name (else clauses of loops, handlers, finally, with, walrus inside an augmented assignment, …); dotted "
+         "imports of one to three components, with and without a module global of the same name; probes whose active "
+         "periods overlap without being nested (each stream = the bindings over the calls made while it was active).",
     design_ref="DESIGN.md section 5, C02",
     note=NOTE_M2 + "The context values carried by an event (latest value of the other captures) are the handler's "
          "business (M3, Props/C05/C07) and the twin oracle's.",
